@@ -141,21 +141,25 @@ def seeded(rec, name, make_seeded, spec, d, inputs_lits, tr):
   """Seeded operators are functions of seed and inputs (independent of the global random state)."""
   for seed in (0, 1):
     outs = []
-    for gseed in (11, 99):
+    for gseed in (11, 99, 7, 5, 3, 1):
       random.seed(gseed)
       inputs = [pg.DNA(l, spec=spec) for l in inputs_lits]
       for x in inputs:
         x.set_metadata('generation_id', 0)
       try:
-        out = make_seeded(seed)(inputs)
-        outs.append(repr([D.dna_literal(o) for o in out]))
-        check_outputs(rec, spec, d, out, name + '[seeded]', dict(tr, op=name, seed=seed, inputs=inputs_lits))
+        op = make_seeded(seed)
+        res = []
+        for step in range(3):               # the same operator instance applied three times in a row
+          out = op(inputs, step=step)
+          res.append([D.dna_literal(o) for o in out])
+          check_outputs(rec, spec, d, out, name + '[seeded]', dict(tr, op=name, seed=seed, inputs=inputs_lits))
+        outs.append(repr(res))
       except Exception as e:  # pylint: disable=broad-except
         outs.append(f'EXC {type(e).__name__}')
       rec.evals += 1
-    if outs[0] != outs[1]:
-      rec.viol(f'seeded-not-deterministic/{name.split("@")[0]}', f'{name}(seed={seed}) on {inputs_lits!r}: {outs[0]} vs {outs[1]} under '
-               f'different global random states', dict(tr, op=name, seed=seed, inputs=inputs_lits))
+    if len(set(outs)) != 1:
+      rec.viol(f'seeded-not-deterministic/{name.split("@")[0]}', f'{name}(seed={seed}) applied 3 times to {inputs_lits!r}: '
+               f'{sorted(set(outs))[:2]} under different global random states', dict(tr, op=name, seed=seed, inputs=inputs_lits))
 
 
 OPS = {
